@@ -218,7 +218,7 @@ pub enum WErrV {
     TagId(u64),
     TagSize(String),
     UnexpectedClosing { id: u64, expected: Option<u64> },
-    Write { kind: String },
+    Write { kind: String, token: u64 },
 }
 
 impl WErrV {
